@@ -156,6 +156,7 @@ PosType(v, ty, q) ==
 (* An edit is described by a small descriptor (so that TLC handles sets of descriptors, never sets of
    programs); Apply turns a descriptor into [rule, shape, prog]. *)
 AltSeq == << IntV("1"), Str(115), BoolV(TRUE), NullV, ObjV(<<A("name", Str(115))>>), ObjV(<<>>) >>
+AltName == << "int", "str", "bool", "null", "obj", "empty-obj" >>
 
 RECURSIVE TypeVariants(_)
 \* near-miss types for a variable declaration: drop a non-null, wrap in / unwrap a list, change the
@@ -233,7 +234,7 @@ Apply(P, di, e) ==
               old == ValAt(s.args[e.i][2], e.q)
               putv(x) == put([s EXCEPT !.args[e.i] = <<an, ValPut(s.args[e.i][2], e.q, x)>>])
               sh(now) == [pos |-> ty, on |-> lk.kind, nested |-> Len(e.q), was |-> old.t, now |-> now] IN
-          CASE e.op = "type_alt" -> [rule |-> "type", shape |-> sh(AltSeq[e.k].t), prog |-> putv(AltSeq[e.k])]
+          CASE e.op = "type_alt" -> [rule |-> "type", shape |-> sh(AltName[e.k]), prog |-> putv(AltSeq[e.k])]
             [] e.op = "type_obj_extra" -> [rule |-> "type", shape |-> sh("obj-with-undefined-field"), prog |-> putv([old EXCEPT !.fields = Append(@, A("bogus", IntV("1")))])]
             [] e.op = "type_obj_drop" -> [rule |-> "type", shape |-> sh("obj-without-required-field"), prog |-> putv([old EXCEPT !.fields = RemoveIdx(@, e.k)])]
 
